@@ -296,8 +296,8 @@ def run(ctx):
     fails = validate(traces, ctx, "Trace_Coord")
     report(traces, fails, ctx)
     # 5. binding self-test: corrupt one observation / drop one event -> must be rejected
-    st = selftest(traces, ctx)
-    ctx.extra["binding_selftest"] = st
+    ctx.selftest(selftest, traces, ctx)
+    st = ctx.extra.get("binding_selftest", {})
     ctx.rule = ("behaviours = every (start state, action) transition of Coord.tla (136 start states incl. heights "
                 "absent/0/value in every combination, 6 notations), every depth-2 path%s, %d simulated chains of "
                 "length 8; each executed once on real objects at a seeded position in a (hemisphere x latitude band x "
@@ -316,7 +316,8 @@ def run(ctx):
 def selftest(traces, ctx):
     """corrupt a logged field / remove an event: TLC must reject."""
     import copy
-    good = [t for t in traces if len(t["ev"]) >= 3 and all(not e["exc"] for e in t["ev"])]
+    good = [t for t in traces if len(t["ev"]) >= 3 and all(not e["exc"] for e in t["ev"])
+            and t["ev"][-1].get("ref", {}).get("pay", "skip") != "skip"]
     if not good:
         return {"ran": False}
     out = {"ran": True}
